@@ -205,6 +205,24 @@ def replay_bracket(K, leaves):
     return res
 
 
+def replay_cbrt(x):
+    """real cbrt at the model's x (float64 and float32): relative error of y^3 against x"""
+    res = {"reproduced": False, "x": x}
+    try:
+        for dt, tol in ((torch.float64, 1e-9), (torch.float32, 1e-4)):
+            xt = torch.tensor([x], dtype=dt)
+            if float(xt) == 0.0:
+                continue
+            y = torchutils.cbrt(xt)
+            rel = abs(float(y.double() ** 3 - xt.double()) / float(xt.double()))
+            res[str(dt)] = {"cbrt": float(y), "relative_error_of_cube": rel}
+            if not (rel <= tol):
+                res["reproduced"] = True
+    except Exception as e:  # noqa
+        res["exception"] = "%s: %s" % (type(e).__name__, e)
+    return res
+
+
 def job_cbrt(cfg):
     timeout = cfg["timeout"]
     R = sc.new_registry()
@@ -224,7 +242,13 @@ def job_cbrt(cfg):
             o = C.prove(R, solver, "cbrt/%s/y^3==x" % sign, goal, [r.path.condition()], timeout)
             jr["outcomes"].append(o.as_dict())
             if o.status != "unsat":
-                jr["inconclusive"].append({"query": o.name, "status": o.status})
+                xv = [float(v) for t, v in (o.model or {}).items() if t is x.a[()].t]
+                rep = replay_cbrt(xv[0]) if xv else {"reproduced": False}
+                if rep.get("reproduced"):
+                    payload = {"property": PROP, "kernel": "cbrt", "relation": "y^3==x", "replay_result": rep, "replay_call": {"fn": "harness.C20:replay_cbrt", "args": {"x": xv[0]}}}
+                    jr["violations"].append({"kernel": "cbrt", "relation": "y^3==x", "signature": "cbrt/" + sign, "replay": C.write_replay(PROP, "cbrt_" + sign, payload), "detail": rep})
+                else:
+                    jr["inconclusive"].append({"query": o.name, "status": o.status, "replay": rep})
             o2 = C.prove(R, solver, "cbrt/%s/sign(y)==sign(x)" % sign, tm.gt(tm.mul(y, x.a[()].t), tm.ZERO), [r.path.condition()], timeout)
             jr["outcomes"].append(o2.as_dict())
             if o2.status != "unsat":
